@@ -14,7 +14,7 @@ use serde::{Deserialize, Serialize};
 #[derive(Clone, Debug, Serialize, Deserialize, PartialEq)]
 pub enum Req {
     Word,
-    Words(u32),
+    Words(u64),
     Str,
     Bit32,
     Bit64,
@@ -58,6 +58,31 @@ fn err_offset(e: &DecodeError) -> Option<usize> {
 }
 
 pub struct C11;
+
+/// every declared (typed request index, number) pair: enumerants of the 41 value enums, and for the 15
+/// masks each declared bit, the union of all bits and 0
+fn typed_pairs() -> &'static Vec<(u32, u32)> {
+    static PAIRS: std::sync::OnceLock<Vec<(u32, u32)>> = std::sync::OnceLock::new();
+    PAIRS.get_or_init(|| {
+        let s = snap();
+        let mut v = vec![];
+        for (i, name) in TYPED_KINDS.iter().enumerate() {
+            let k = s.kind(name);
+            if let Some(e) = s.enums.get(&k) {
+                for n in &e.numbers {
+                    v.push((i as u32, *n));
+                }
+            } else if let Some(m) = s.masks.get(&k) {
+                v.push((i as u32, 0));
+                v.push((i as u32, m.all));
+                for (bit, _) in &m.bits {
+                    v.push((i as u32, *bit));
+                }
+            }
+        }
+        v
+    })
+}
 
 fn gen_bytes(rng: &mut Rng) -> Vec<u8> {
     let target = match rng.below(10) {
@@ -141,6 +166,25 @@ impl Property for C11 {
     }
 
     fn generate(rng: &mut Rng, _tier: Tier) -> Trace {
+        if rng.chance(1, 8) {
+            // enumeration probe: one declared (kind, number) pair of the 56 typed requests, or a neighbour
+            let pairs = typed_pairs();
+            let (idx, num) = pairs[rng.usize_below(pairs.len())];
+            let w = match rng.below(6) {
+                0 => num.wrapping_add(1),
+                1 => num.wrapping_sub(1),
+                _ => num,
+            };
+            let mut bytes = w.to_le_bytes().to_vec();
+            if rng.chance(1, 2) {
+                bytes.extend_from_slice(&rng.u32().to_le_bytes());
+            }
+            return Trace {
+                bytes,
+                flush_end: rng.chance(1, 2),
+                reqs: vec![Req::Typed(idx), Req::Offset, Req::Word],
+            };
+        }
         let bytes = gen_bytes(rng);
         let n = rng.range(5, 40) as usize;
         let words_left = (bytes.len() / 4) as u64;
@@ -151,7 +195,12 @@ impl Property for C11 {
         for _ in 0..n {
             let r = match rng.below(20) {
                 0..=3 => Req::Word,
-                4 => Req::Words(rng.below(7) as u32),
+                4 => Req::Words(match rng.below(12) {
+                    // astronomically large counts: must fail cleanly (never mid-size ones that could really allocate)
+                    0 => u64::MAX,
+                    1 => 1 << 62,
+                    _ => rng.below(7),
+                }),
                 5..=7 => Req::Str,
                 8 => Req::Bit32,
                 9 => Req::Bit64,
@@ -335,18 +384,18 @@ impl Property for C11 {
                 }
                 Req::Words(_) | Req::Bit64 => {
                     let k: u64 = match r {
-                        Req::Words(n) => *n as u64,
+                        Req::Words(n) => *n,
                         _ => 2,
                     };
                     let res: Result<Result<Vec<u32>, DecodeError>, PanicInfo> = guarded(|| match r {
-                        Req::Words(n) => d.words(*n as usize),
+                        Req::Words(n) => d.words((*n).min(usize::MAX as u64) as usize),
                         _ => d.bit64().map(|v| vec![v as u32, (v >> 32) as u32]),
                     });
                     let res = match res {
                         Ok(x) => x,
                         Err(pi) => fail!("C11.panic", locus, step, "{}", pi.detail()),
                     };
-                    let fits_buf = off + 4 * k as usize <= len;
+                    let fits_buf = k <= ((len.saturating_sub(off)) / 4) as u64;
                     let fits_lim = lim_left(lim).map(|n| n >= k).unwrap_or(true);
                     match res {
                         Ok(vals) => {
@@ -390,7 +439,7 @@ impl Property for C11 {
                             // documented: an unsuccessful multi-word request may consume any number of bytes
                             let new = d.offset();
                             let moved = new.wrapping_sub(off);
-                            if new < off || moved % 4 != 0 || moved > 4 * k as usize || new > len.max(off) {
+                            if new < off || moved % 4 != 0 || (moved / 4) as u64 > k || new > len.max(off) {
                                 fail!("C11.fail.bounded-consumption", locus, step, "after the failed request the offset went from {} to {} (buffer {} bytes, request {} words)", off, new, len, k);
                             }
                             let used = (moved / 4) as u64;
